@@ -14,8 +14,11 @@ type scopeOcc struct {
 	name             string
 	sl, sc, el, ec   int
 	kind             string // D W U
+	dk               string // declaration kind: L local statement, P parameter, F loop variable, N local function
 	s, ms, me, class string
 	t                string // traversal-time binding (LuaHelper's own passes)
+	flevel           int    // number of enclosing function bodies
+	init             string // shape of the paired right-hand expression (declarations and assignment targets)
 }
 
 func parseScopeAnswer(ans string) ([]scopeOcc, error) {
@@ -29,7 +32,7 @@ func parseScopeAnswer(ans string) ([]scopeOcc, error) {
 	}
 	for _, it := range strings.Split(body, ";") {
 		f := strings.Split(it, ",")
-		if len(f) != 7 {
+		if len(f) != 9 {
 			return nil, fmt.Errorf("bad item %q", it)
 		}
 		var o scopeOcc
@@ -37,11 +40,17 @@ func parseScopeAnswer(ans string) ([]scopeOcc, error) {
 		o.name = string(lib.UnHex(f[0][:at]))
 		fmt.Sscanf(f[0][at+1:], "%d:%d:%d:%d", &o.sl, &o.sc, &o.el, &o.ec)
 		o.kind = f[1]
+		if strings.HasPrefix(o.kind, "D") {
+			o.dk = o.kind[1:]
+			o.kind = "D"
+		}
 		o.s = strings.TrimPrefix(f[2], "S=")
 		o.ms = strings.TrimPrefix(f[3], "Ms=")
 		o.me = strings.TrimPrefix(f[4], "Me=")
 		o.class = strings.TrimPrefix(f[5], "K=")
 		o.t = strings.TrimPrefix(f[6], "T=")
+		fmt.Sscanf(strings.TrimPrefix(f[7], "F="), "%d", &o.flevel)
+		o.init = strings.TrimPrefix(f[8], "I=")
 		out = append(out, o)
 	}
 	return out, nil
